@@ -20,6 +20,11 @@ META = {
                    "internals, the ledger reasons (reviewed by hand, listed with the evidence). rustc MIR, tmfacts, walker."),
 }
 
+# --- additions to the level description (rules added after the first version)
+META['level_text'] += ' An index that is the induction variable of 0..len(v) is only accepted when v cannot shrink under it (no removal in the loop body or its callees for a forward loop; at most one per iteration when counting down); an index found by position()/rposition() on the same unmodified vector is in range.'
+META["technique"] += '; vector-shrink summary (per-iteration removal count through callees) for induction-variable indices'
+# --- end additions
+
 ROOTS = ["layout_loading::load_layout_from_file", "key_transforms::Mapper::for_layout", "key_transforms::Mapper::step", "key_transforms::Mapper::release_all"]
 LEDGER = os.path.join(VERIF, "ledgers", "panic_sites.json")
 CONVERT = "fancy_layout_interpreting::convert"
